@@ -4,6 +4,7 @@ from pyvc.contract import contract
 contract("C13.get_schema_namespace",
          file="hed/models/hed_tag.py", func="HedTag._get_schema_namespace",
          params={"org_tag": "Str"}, returns="Str", enc="array",
+         also=["C03"],      # C03: a tag without prefix must be resolved as a whole (a ':' after the first '/' is part of the value)
          ensures={
              # from the property: the namespace is the text up to and including the first ':' when that colon
              # comes before any '/', otherwise it is empty; it is always a prefix of the tag text
